@@ -4,6 +4,7 @@ package main
 // loops exactly unrolled or cut at an invariant).
 
 import (
+	"go/token"
 	"fmt"
 	"go/types"
 	"os"
@@ -140,6 +141,9 @@ type Exec struct {
 	arbRegs    map[ssa.Value]Val
 	arbBools   map[string]*Term
 	usesCallRes int // 0 unknown, 1 yes, -1 no
+	callPosStack []token.Pos // positions of the call instructions being executed (outermost first)
+	inlinedCallRes map[string]Val   // results of calls made inside callees verified through their bodies
+	inlinedCallRep map[string]*Term // ... and whether they reported
 	arrayInit  bool // initVal: array-typed initialisers become array values (not table slices)
 	curBlock   *ssa.BasicBlock // block being executed at inline depth 0
 	stepOutcomes map[int][][2]*Term // loop ordinal -> (guard, reported in the iteration) per back edge
@@ -1091,7 +1095,7 @@ func (x *Exec) loopMods(l *Loop, st *State) modSet {
 					} else if fc := x.w.ByPath[pp.Pkg.Path()].Contracts.Funcs[ContractKey(sc)]; fc != nil && !fc.Inline {
 						// a function under contract is itself obliged to leave every lock as it found it
 						touchesGhost = false
-					} else if fc == nil && sc.Parent() == nil && !fnMayTouchGhost(sc, 0) {
+					} else if fc == nil && sc.Parent() == nil && !x.fnMayTouchGhost(sc, 0) {
 						// a function without a contract (verified through its body) that makes no call at all that
 						// could change ghost state
 						touchesGhost = false
@@ -1203,9 +1207,10 @@ func (x *Exec) callMayWriteHeap(c *ssa.CallCommon) bool {
 	return true
 }
 
-// fnMayTouchGhost: the function (or a function it calls, to a small depth) may change ghost state: it calls
-// something other than builtins and plain functions of the standard library's pure helpers.
-func fnMayTouchGhost(fn *ssa.Function, depth int) bool {
+// fnMayTouchGhost: the function (or a function it calls, to a small depth) may change lock ghost state: it calls
+// a sync.Mutex method, or a module function without a contract that does. Functions under contract leave every lock
+// as they found it (their own obligation); unknown callees cannot name another package's private mutex.
+func (x *Exec) fnMayTouchGhost(fn *ssa.Function, depth int) bool {
 	if depth > 4 || len(fn.Blocks) == 0 {
 		return true
 	}
@@ -1221,12 +1226,22 @@ func fnMayTouchGhost(fn *ssa.Function, depth int) bool {
 			}
 			sc := c.StaticCallee()
 			if sc == nil {
-				return true
-			}
-			if pp := fnPkg(sc); pp != nil && (strings.HasPrefix(pp.Pkg.Path(), "strings") || strings.HasPrefix(pp.Pkg.Path(), "strconv") || strings.HasPrefix(pp.Pkg.Path(), "unicode") || strings.HasPrefix(pp.Pkg.Path(), "math")) {
 				continue
 			}
-			if fnMayTouchGhost(sc, depth+1) {
+			pp := fnPkg(sc)
+			if pp == nil {
+				return true
+			}
+			if pk, inModule := x.w.ByPath[pp.Pkg.Path()]; inModule {
+				if fc := pk.Contracts.Funcs[ContractKey(sc)]; fc != nil && !fc.Inline {
+					continue
+				}
+				if x.fnMayTouchGhost(sc, depth+1) {
+					return true
+				}
+				continue
+			}
+			if strings.Contains(sc.String(), "sync.Mutex") || strings.Contains(sc.String(), "sync.RWMutex") {
 				return true
 			}
 		}
